@@ -117,6 +117,17 @@ ThRestrict ==
 
 Theorems == ThCommute /\ ThAddress /\ ThFind /\ ThRestrict
 
+\* an address derived for the meet of two requests holds exactly the receivers both requests give
+ASSUME \A C \in Subsets, ix \in IndexClasses, r1 \in CustomRequests, r2 \in CustomRequests :
+    LET m == IntersectSpec(r1, r2)
+        a1 == AddressSpec(C, r1, ix)  a2 == AddressSpec(C, r2, ix)
+    IN  (m.k = "ok" /\ a1.k = "ok" /\ a2.k = "ok") =>
+           LET a == AddressSpec(C, [kind |-> "custom", o |-> m.o, s |-> m.s, t |-> m.t], ix)
+           IN  a.k = "ok" /\ a.recv = a1.recv \cap a2.recv
+ASSUME \A r1 \in CustomRequests, r2 \in CustomRequests :
+    /\ IntersectSpec(r1, r2) = IntersectSpec(r2, r1)
+    /\ IntersectSpec(r1, r1) = [k |-> "ok", o |-> r1.o, s |-> r1.s, t |-> r1.t]
+
 ASSUME \A kind \in CodecKinds, n \in RealNets : CodecSpec(kind, n, n)                 \* round trip
 ASSUME \A kind \in CodecKinds, a, b \in RealNets : CodecSpec(kind, a, b) = CodecSpec(kind, b, a)
 ASSUME \A l \in AllLines : WellFormedLine(l)
@@ -134,6 +145,8 @@ ASSUME EmitTables => \A F \in Subsets, I \in Subsets, sc \in Scopes, rk \in BOOL
                              requireKey |-> rk, req |-> r, sv |-> sv,
                              recv |-> SetToSeq(AddressSpec(I, r, [sv |-> sv, tv |-> TRUE]).recv),
                              allowed |-> SetToSeq(GapSpec(F, I, sc, rk, r, sv))]) >>)
+ASSUME EmitTables => \A r1 \in CustomRequests, r2 \in CustomRequests :
+    PrintT(<< "MEET", ToJson([a |-> r1, b |-> r2, res |-> IntersectSpec(r1, r2)]) >>)
 ASSUME PrintT(<< "COUNTS", ToJson([lines |-> Cardinality(AllLines), requests |-> Cardinality(Requests),
                                    subsets |-> Cardinality(Subsets)]) >>)
 ===============================================================================
